@@ -8,7 +8,7 @@ differing regions are compared with what the model (instantiated with the varian
 GenEnvDeps.v selects) predicts to vary; the process-dependent inputs observed in-process (printed addresses, map
 iteration order) are fed to the extracted model, which must reproduce the implementation's identifiers; interpreter
 traces of repeated runs are compared, including stale and corrupt cache files."""
-import concurrent.futures, hashlib, json, os, platform, re, shutil, subprocess, sys, tempfile
+import concurrent.futures, hashlib, json, os, platform, re, shutil, subprocess, sys, tempfile, time
 from vlib import *
 import chartgen as G
 
@@ -183,19 +183,23 @@ def transform_once(exe, be, xml, cwd, tmpdir, prefix, extra_env, timeout=90, inf
         os.remove(out)
     except OSError:
         pass
-    try:
-        p = subprocess.run(prefix + [exe, '-t' + be, '-o', out] + (['-i', infile] if infile else []),
-                           input=None if infile else xml.encode('utf-8'), stdin=subprocess.DEVNULL if infile else None,
-                           stdout=subprocess.PIPE, stderr=subprocess.PIPE,
-                           cwd=cwd, env=env, timeout=timeout)
+    for attempt in range(4):
+        try:
+            p = subprocess.run(prefix + [exe, '-t' + be, '-o', out] + (['-i', infile] if infile else []),
+                               input=None if infile else xml.encode('utf-8'), stdin=subprocess.DEVNULL if infile else None,
+                               stdout=subprocess.PIPE, stderr=subprocess.PIPE, cwd=cwd, env=env, timeout=timeout)
+        except subprocess.TimeoutExpired:
+            return 'TIMEOUT', b''
         try:
             with open(out, 'rb') as f:
                 text = f.read()
         except OSError:
             text = b'<no output file>'
+        if p.returncode in (126, 127) and text == b'<no output file>' and attempt < 3:
+            # the loader could not start the program: the build tree is being relinked by a concurrent check
+            time.sleep(2)
+            continue
         return p.returncode, text
-    except subprocess.TimeoutExpired:
-        return 'TIMEOUT', b''
 
 
 def cmdline(exe, be, cwd, tmpdir, prefix, extra_env, docfile):
